@@ -1310,6 +1310,21 @@ where
             }
         }
     }
+    if !th {
+        // permutations / index remapping need a dimension 3 to tell p from its inverse
+        let s3 = symbols::<R::Ref>(true, true, &[1]);
+        for (m, n) in [(3usize, 0usize), (0, 3), (3, 1), (1, 3), (3, 2), (2, 3), (3, 3)] {
+            let sy = if m * n <= 3 { &s5 } else { &s3 };
+            let cnt = count(sy.len(), m * n);
+            let chunk = 64;
+            run.par_for(cnt.div_ceil(chunk), |c| {
+                let ck = Ck::new(run, R::NAME);
+                for idx in c * chunk..((c + 1) * chunk).min(cnt) {
+                    unary_spmat::<R>(&ck, &nth_opd(m, n, sy, idx));
+                }
+            });
+        }
+    }
     run.sample(json!({"ring": R::NAME, "operand": nth_opd::<R::Ref>(2, 2, &s5, 7 + 5 * 1 + 25 * 2).show(),
         "note": "'.' = zero not stored, '0' = explicitly stored zero; every public SpMat operation is evaluated on it"}));
 
@@ -1803,6 +1818,9 @@ where
         }
         next.sort_by(|a, b| a.key.cmp(&b.key));
         per_level.push(next.len() as u64);
+        if std::env::var("VERIF_PROGRESS").is_ok() {
+            eprintln!("[c13] trans {} level {} -> {} new states, {} transitions so far, {:.1}s", R::NAME, level + 1, next.len(), trans.load(Ordering::Relaxed), run.elapsed());
+        }
         frontier = next;
         if run.over_budget() {
             run.cap("wall budget reached in the Trans history search");
@@ -1895,6 +1913,9 @@ fn main() {
     let mut lap = |run: &Run, what: &str| {
         let now = run.elapsed();
         timing.push(json!({"part": what, "wall_s": ((now - t0) * 10.0).round() / 10.0}));
+        if std::env::var("VERIF_PROGRESS").is_ok() {
+            eprintln!("[c13] {what}: {:.1}s (total {:.1}s)", now - t0, now);
+        }
         t0 = now;
     };
 
@@ -1943,7 +1964,7 @@ fn main() {
         "cases_with_stored_zero": run.get("cases_with_stored_zero"),
         "rule": "a case = one operand tuple of one operation group (one-operand SpMat/SpVec/Mat sweep, or an ordered pair for + - * concat stack extend_cols mat*vec), operands enumerated completely as cell assignments over {not stored, stored 0, -1, 1, 2} (SpMat/SpVec) or {0,1,-1,2} (Mat) for every shape in the bound; distinct by construction; nontrivial = no zero dimension and every operand non-zero; 'evaluations' = library calls whose result was compared entry by entry with the dense reference",
         "bounds": {
-            "shapes": if th { "{0,1,2,3}^2 (vectors up to dimension 4)" } else { "{0,1,2}^2 (vectors up to dimension 3)" },
+            "shapes": if th { "{0,1,2,3}^2 (vectors up to dimension 4)" } else { "{0,1,2}^2 (vectors up to dimension 3); one-operand SpMat sweep also 3x0,0x3,3x1,1x3 (full alphabet) and 3x2,2x3,3x3 over {., 0, 1}" },
             "pair_alphabet": "total cells <= 10: {., 0, -1, 1, 2}; 11..14: {., 0, 1}; more: {., 1} and {0, -1} (dense: <= 12: {0,1,-1,2}; <= 15: {0,1,-1}; more: {0,1})",
         },
         "timing": timing,
